@@ -79,10 +79,20 @@ def check_update(g):
             V = v
         elif V != v:
             return None, None, "min and max fold different values (%s vs %s)" % (V, v)
+    def _inl(rhs_):
+        """hoisted products (`let weighted = len * val`) inlined, keeping the length and value locals as names"""
+        try:
+            from ..astq import tnorm_keeping
+            fn_ = getattr(strip(rhs_), "fn", None) or getattr(rhs_, "fn", None)
+            return tnorm_keeping(fn_, rhs_, (L, V)) if fn_ is not None else rhs_
+        except Exception:
+            return rhs_
     op, rhs, _ = f["sum"][0]
+    rhs = _inl(rhs)
     if op != "+=" or sorted(factors(rhs)) != sorted([L, V]):
         return None, None, "sum must be `+= len * val` with len=%s, val=%s; got `%s %s`" % (L, V, op, up(rhs))
     op, rhs, _ = f["sum_squares"][0]
+    rhs = _inl(rhs)
     if op != "+=" or sorted(factors(rhs)) != sorted([L, V, V]):
         return None, None, "sum_squares must be `+= len * val * val` with len=%s, val=%s; got `%s %s`" % (L, V, op, up(rhs))
     return L, V, None
